@@ -3,6 +3,7 @@ import KoordVerif.Model.C16Arb
 import KoordVerif.Proofs.C16ExtArb
 import KoordVerif.Proofs.C16Ext2Cycle
 import KoordVerif.Proofs.C16Ext2Dim
+import KoordVerif.Proofs.C16Ext3
 /-
 C16 — descheduler disruption budgets are never exceeded, even with concurrent evictors.
 
@@ -13,6 +14,9 @@ does not (witness schedule).  Ties/C16.lean shows that the shape extracted from 
 Part 2 (M-arb): one iteration of the arbitration loop, on the state that already contains every earlier
 admission of the same round, the whole round (round_inv), and the two-step duplicate lookup.
 Part 3 (cycle): Reset ; Deschedule phase ; Balance phase of one deschedulerOnce keeps the caps for the whole cycle.
+Part 4 (handler): the informer events routed through arbitrationHandler keep the passed mark of every live job, so the
+bounds of a round hold with the arbitrator's own writes echoed back at any point.
+Part 5 (config): the caps reach the limiter as the configuration file declares them (0 included).
 -/
 namespace KoordVerif.C16
 
@@ -513,5 +517,139 @@ theorem cycle_dry_no_call (lim : Option Caps) (s0 : Ctr) (ph1 ph2 : List (Pod ×
 example :
     let r := cycle (some ⟨none, none, some 3⟩) false {} [(⟨1, 0⟩, true), (⟨2, 0⟩, true)] [(⟨1, 1⟩, true), (⟨3, 0⟩, true)]
     r.2.map (·.ok) = [true, true, true, false] ∧ r.1.total = 3 := by decide
+
+/-! ### Part 4 — the events around the arbitrator (handler.go) -/
+
+/-- **passed_mark_kept_while_live.**  An informer event routed through arbitrationHandler keeps the passed-arbitration
+    mark of job `j`, unless it is the Delete event of `j` itself or an Update event of `j` whose new phase is
+    Succeeded / Failed / Aborted.  In particular the echo of the arbitrator's own annotation write — phase "" (0),
+    Pending or Running — keeps it, and so does an event of any other job. -/
+theorem passed_mark_kept_while_live (st : ArbSt) (e : HEvent) (j : Nat)
+    (h : match e with
+         | .create _ => True
+         | .update jid ph => jid = j → terminalPhase ph = false
+         | .delete jid => jid ≠ j) :
+    (handle st e).arbitrated.contains j = st.arbitrated.contains j := by
+  cases e with
+  | create jid => simp only [handle]; split <;> rfl
+  | update jid ph =>
+    simp only [handle]
+    split
+    · rename_i ht
+      have hne : j ≠ jid := fun hj => by rw [h hj.symm] at ht; cases ht
+      have : (j != jid) = true := by simpa using hne
+      rw [dropMark_contains, this, Bool.and_true]
+    · rfl
+  | delete jid =>
+    have : (j != jid) = true := by simpa using (fun hj : j = jid => h hj.symm)
+    simp only [handle]
+    rw [dropMark_contains, this, Bool.and_true]
+
+/-- the phases that keep the mark are exactly those that are not Succeeded (3), Failed (4), Aborted (5): "" (0), Pending (1),
+    Running (2) and any value the API does not define -/
+theorem terminalPhase_iff (ph : Nat) : terminalPhase ph = false ↔ ph ≠ 3 ∧ ph ≠ 4 ∧ ph ≠ 5 := by
+  simp only [terminalPhase, Bool.or_eq_false_iff, beq_eq_false_iff_ne, ne_eq]
+  omega
+
+/-- **handler_events_keep_live.**  With unique job names, the Update event the informer delivers for ANY job (ObjectNew =
+    the object in the API) changes `live` of no job: every count of `round_inv` is the same before and after it, and
+    every limit check of the filter answers the same for every pod. -/
+theorem handler_events_keep_live (st : ArbSt) (w : WF st) (jid : Nat) :
+    cntGlobal (echo st jid) = cntGlobal st ∧ (∀ n, cntNode (echo st jid) n = cntNode st n) ∧
+    (∀ k, cntNs (echo st jid) k = cntNs st k) ∧ (∀ wl k, cntMigr (echo st jid) wl k = cntMigr st wl k) ∧
+    (∀ wl k, cntUnav (echo st jid) wl k = cntUnav st wl k) ∧
+    (∀ cfg ca p, retryable cfg (echo st jid) ca p = retryable cfg st ca p) := by
+  have e := echo_liveEq st w.jobIds jid
+  exact ⟨e.cntGlobal, e.cntNode, e.cntNs, e.cntMigr, e.cntUnav, e.retryable⟩
+
+/-- **round_inv_eager**: `round_inv` for a round in which the informer echoes each of the arbitrator's own writes back
+    through the handler before the next job is filtered (`roundEager`; the end-of-round echo is `round` followed by
+    `echoAll`, covered by `handler_events_keep_live`). -/
+theorem round_inv_eager (cfg : ArbCfg) (uf : List Nat) (st : ArbSt) (order : List Nat) (w : WF st) :
+    let st' := roundEager cfg uf st order
+    let E := roundExemptEager cfg uf st order
+    (gateSkipped cfg 5 = false → 0 < cfg.maxGlobal → cntGlobal st' ≤ max cfg.maxGlobal.toNat (cntGlobal st) + E) ∧
+    (∀ n, n ≠ 0 → gateSkipped cfg 3 = false → 0 < cfg.maxNode → cntNode st' n ≤ max cfg.maxNode.toNat (cntNode st n) + E) ∧
+    (∀ k, gateSkipped cfg 4 = false → 0 < cfg.maxNs → cntNs st' k ≤ max cfg.maxNs.toNat (cntNs st k) + E) ∧
+    (∀ wl k, wl ≠ 0 → gateSkipped cfg 2 = false →
+      cntMigr st' wl k ≤ max (max (wlLimit cfg wl cfg.mmKind cfg.maxMigr) 1) (cntMigr st wl k) + E) ∧
+    (∀ wl k, wl ≠ 0 → gateSkipped cfg 1 = false →
+      cntUnav st' wl k ≤ max (wlLimit cfg wl cfg.muKind cfg.maxUnav) (cntUnav st wl k) + E) := by
+  refine ⟨fun hs hl => ?_, fun n hn hs hl => ?_, fun k hs hl => ?_, fun wl k hw hs => ?_, fun wl k hw hs => ?_⟩
+  · exact fold_bound_eager cfg uf cntGlobal _ (fun s j ws => step_global cfg uf s j ws hs hl) (fun _ _ e => e.cntGlobal) order st w
+  · exact fold_bound_eager cfg uf (cntNode · n) _ (fun s j ws => step_node cfg uf s j ws n hn hs hl) (fun _ _ e => e.cntNode n) order st w
+  · exact fold_bound_eager cfg uf (cntNs · k) _ (fun s j ws => step_ns cfg uf s j ws k hs hl) (fun _ _ e => e.cntNs k) order st w
+  · exact fold_bound_eager cfg uf (cntMigr · wl k) _ (fun s j ws => step_migr cfg uf s j ws wl k hw hs) (fun _ _ e => e.cntMigr wl k) order st w
+  · exact fold_bound_eager cfg uf (cntUnav · wl k) _ (fun s j ws => step_unav cfg uf s j ws wl k hw hs) (fun _ _ e => e.cntUnav wl k) order st w
+
+/-- **observer_counts_code_counts**: as long as annotation and mark agree on the open jobs (`AnnMark`: they are written
+    together, `processJob_annMark`, and no handler event separates them, `echo_annMark`), the eager round keeps that
+    agreement and the global count of the code's own bookkeeping IS the count an observer of the API makes
+    (Running, or ""/Pending with the passed annotation) — the count the Go oracle evaluates. -/
+theorem observer_counts_code_counts (cfg : ArbCfg) (uf : List Nat) (st : ArbSt) (order : List Nat) (w : WF st) (h : AnnMark st) :
+    let st' := roundEager cfg uf st order
+    AnnMark st' ∧ cntGlobal st' = st'.jobs.countP fun j => annLive j && j.pod != 0 := by
+  have h' := roundEager_annMark cfg uf order st w h
+  exact ⟨h', h'.cntGlobal_eq⟩
+
+/-- **literal_phase_handler_counterexample**: a handler that keeps the mark only for the literal phases Pending / Running
+    (the shape `handleLiteral`) drops the mark of a job whose phase is still "" when its own annotation write comes back:
+    MaxMigratingGlobally = 1, two waiting jobs of phase "" for two pods.  With the handler as written the second round
+    leaves job 2 waiting (1 live job by the API's reading); with the literal handler it passes too (2 > 1). -/
+theorem literal_phase_handler_counterexample :
+    let cfg : ArbCfg := { maxGlobal := 1, maxNode := -1, maxNs := -1, maxMigr := 10, maxUnav := 10, replicas := [(2, 20)] }
+    let st : ArbSt := { pods := [⟨1, 1, 1, 2, true, false, false, 0⟩, ⟨2, 1, 1, 2, true, false, false, 0⟩],
+                        jobs := [⟨1, 1, 1, 0, false, 1⟩, ⟨2, 2, 1, 0, false, 2⟩], waiting := [1, 2] }
+    let s1 := round cfg [] st [1]
+    WF st ∧ (s1.jobs.countP fun j => annLive j && j.pod != 0) = 1 ∧
+    ((round cfg [] (handle s1 (.update 1 0)) [2]).jobs.countP fun j => annLive j && j.pod != 0) = 1 ∧
+    ((round cfg [] (handleLiteral s1 (.update 1 0)) [2]).jobs.countP fun j => annLive j && j.pod != 0) = 2 := by decide
+
+-- non-vacuity of Part 4: an eager round that admits, echoes and refuses (global limit 1, two waiting jobs of phase "")
+example :
+    let cfg : ArbCfg := { maxGlobal := 1, maxNode := -1, maxNs := -1, maxMigr := 10, maxUnav := 10, replicas := [(2, 20)] }
+    let st : ArbSt := { pods := [⟨1, 1, 1, 2, true, false, false, 0⟩, ⟨2, 1, 1, 2, true, false, false, 0⟩],
+                        jobs := [⟨1, 1, 1, 0, false, 1⟩, ⟨2, 2, 1, 0, false, 2⟩], waiting := [1, 2] }
+    WF st ∧ AnnMark st ∧ cntGlobal (roundEager cfg [] st [1, 2]) = 1 ∧ (roundEager cfg [] st [1, 2]).waiting = [2] ∧
+      roundExemptEager cfg [] st [1, 2] = 0 := by
+  refine ⟨by decide, ?_, by decide, by decide, by decide⟩
+  intro j hj _
+  simp only [List.mem_cons, List.mem_nil_iff, or_false] at hj
+  rcases hj with rfl | rfl <;> decide
+
+/-! ### Part 5 — from the configuration file to the limiter -/
+
+/-- **caps_roundtrip_config.**  Decoding, defaulting and conversion of a v1alpha2 configuration hand each of the three caps
+    to `NewEvictionLimiter` exactly as declared: an absent or null key is no cap, an integer n is the cap n — 0
+    ("evict nothing") included. -/
+theorem caps_roundtrip_config (node ns total : CapDecl) :
+    configCaps node ns total = ⟨node.declared, ns.declared, total.declared⟩ := by
+  cases node <;> cases ns <;> cases total <;> rfl
+
+/-- **config_cycle_caps_hold**: `cycle_caps_hold` for the limiter the start-up path builds — in every cycle the evictions
+    issued are within the caps the FILE declares; a declared 0 means nothing is issued. -/
+theorem config_cycle_caps_hold (node ns total : CapDecl) (s0 : Ctr) (ph1 ph2 : List (Pod × Bool)) :
+    let r := cycle (some (configCaps node ns total)) false s0 ph1 ph2
+    let iss := issuedOf (ph1 ++ ph2) r.2
+    (∀ n, n ≠ 0 → capLe node.declared (issuedBy (·.node) iss n)) ∧ (∀ k, capLe ns.declared (issuedBy (·.ns) iss k)) ∧
+      capLe total.declared iss.length ∧ iss.length = r.1.total ∧ (total = .val 0 → iss = []) := by
+  have h := cycle_caps_hold (configCaps node ns total) s0 ph1 ph2
+  rw [caps_roundtrip_config] at h
+  rw [caps_roundtrip_config]
+  refine ⟨fun n hn => (h.1 n hn).2, fun k => (h.2.1 k).2, h.2.2.2, h.2.2.1, fun ht => ?_⟩
+  subst ht
+  exact List.eq_nil_of_length_eq_zero (by simpa [CapDecl.declared, capLe] using h.2.2.2)
+
+/-- **zero_cap_defaulted_away_counterexample**: a defaulting function that turns an explicit 0 into nil
+    (`defaultCapZeroNil`) breaks the round trip, and a cycle then evicts although the file says "evict nothing" -/
+theorem zero_cap_defaulted_away_counterexample :
+    convertCap (defaultCapZeroNil (decodeCap (.val 0))) ≠ (CapDecl.val 0).declared ∧
+    (let caps : Caps := ⟨none, none, convertCap (defaultCapZeroNil (decodeCap (.val 0)))⟩
+     (issuedOf [(⟨1, 0⟩, true)] (cycle (some caps) false {} [(⟨1, 0⟩, true)] []).2).length = 1) := by decide
+
+-- non-vacuity of Part 5: total cap 0 in the file: both attempts of the cycle are refused without a call
+example :
+    (cycle (some (configCaps .absent .null (.val 0))) false {} [(⟨1, 0⟩, true)] [(⟨2, 1⟩, true)]).2 = [⟨false, false⟩, ⟨false, false⟩] ∧
+      configLoads .absent .null (.val 0) = true ∧ configLoads .malformed .absent .absent = false := by decide
 
 end KoordVerif.C16
